@@ -24,6 +24,111 @@ func init() {
 	register(&Rule{ID: "C08.4", Prop: "C08", Min: 3,
 		Text: "peer.Close joins all sessions: the accept-stopping listener close dominates the session range; each ranged session gets exactly one asynchronous sess.Close whose result is sent to the error channel and counted; exactly `count` results are received before returning",
 		Run:  runC08_4})
+	register(&Rule{ID: "C08.6", Prop: "C08", Min: 2,
+		Text: "frames read while closing gracefully are still delivered: the only status predicates consulted by the read loop (startReadAndHandle) are goonRead() or a checkStatus with exactly {Ok, ActiveClosing} - a narrower gate drops the replies the graceful wait is waiting for",
+		Run:  runC08_6})
+	register(&Rule{ID: "C08.7", Prop: "C08", Min: 2,
+		Text: "every Close waits: (*session).Close takes the session lock and reaches closeLocked on every path - a status-based early return before the lock lets an overlapping Close return while handlers are still running and their replies unwritten",
+		Run:  runC08_7})
+}
+
+// readsStatus: does fn (following static calls inside the root package, depth <= 2) load session.status?
+func readsStatus(p *Prog, fn *ssa.Function, depth int) bool {
+	if fn == nil || len(fn.Blocks) == 0 || depth > 2 {
+		return false
+	}
+	sessN, statusIdx := p.FieldIndex(Root, "session", "status")
+	found := false
+	Instrs(fn, func(i ssa.Instruction) {
+		call, ok := i.(ssa.CallInstruction)
+		if !ok {
+			return
+		}
+		if o := CalleeObj(call); o != nil && isAtomicFn(o) && len(call.Common().Args) > 0 && isFieldAddr(call.Common().Args[0], sessN, statusIdx) {
+			found = true
+			return
+		}
+		if sc := call.Common().StaticCallee(); sc != nil && sc != fn && sc.Pkg == fn.Pkg && readsStatus(p, sc, depth+1) {
+			found = true
+		}
+	})
+	return found
+}
+
+func runC08_6(c *Ctx) {
+	p := c.P
+	st := p.statusTable()
+	fn := p.Fn(Root, "session", "startReadAndHandle")
+	goon := p.MethodObj(Root, "session", "goonRead")
+	check := p.MethodObj(Root, "session", "checkStatus")
+	n := 0
+	idx := map[string]int{}
+	for _, call := range AllCalls(fn) {
+		if _, isCall := call.(*ssa.Call); !isCall {
+			continue
+		}
+		sc := call.Common().StaticCallee()
+		if sc == nil || sc.Signature.Results().Len() != 1 {
+			continue
+		}
+		if b, ok := sc.Signature.Results().At(0).Type().Underlying().(*types.Basic); !ok || b.Kind() != types.Bool {
+			continue
+		}
+		if !readsStatus(p, sc, 0) {
+			continue
+		}
+		n++
+		key := "status predicate " + sc.Name() + " in read loop"
+		idx[key]++
+		if idx[key] > 1 {
+			key = fmt.Sprintf("%s#%d", key, idx[key])
+		}
+		o := CalleeObj(call)
+		switch {
+		case o == goon:
+			c.Hold(key, p.InstrPos(call), "goonRead() (its state set is decided by C08.3)")
+		case o == check:
+			vals, okv := VariadicInts(CallArgs(call)[0])
+			var m uint32
+			for _, v := range vals {
+				m |= 1 << st.bits[v]
+			}
+			c.Check(okv && m == st.mask("statusOk", "statusActiveClosing"), key, p.InstrPos(call), "checkStatus(Ok, ActiveClosing)",
+				"the read loop gates on checkStatus("+st.names(m)+") instead of {Ok,ActiveClosing}: frames read while the session closes gracefully (replies to its own pending calls) are dropped, or a closed session keeps dispatching")
+		default:
+			c.Viol(key, p.InstrPos(call), "the read loop consults "+sc.Name()+"() instead of goonRead(): the set of states in which frames are delivered is no longer {Ok, ActiveClosing}")
+		}
+	}
+	c.fact("call-site census")
+	if n < 2 {
+		c.Undec("read loop gates", p.Pos(fn.Pos()), fmt.Sprintf("found %d status predicates in the read loop, expected >= 2", n))
+	}
+}
+
+func runC08_7(c *Ctx) {
+	p := c.P
+	fn := p.Fn(Root, "session", "Close")
+	closeLocked := p.MethodObj(Root, "session", "closeLocked")
+	sessN, lockIdx := p.FieldIndex(Root, "session", "lock")
+	all, exits := p.MustPassFromEntry(fn, func(i ssa.Instruction) bool {
+		_, isCall := i.(*ssa.Call)
+		return isCall && IsCallTo(i, closeLocked)
+	}, nil)
+	c.fact("must-pass")
+	var path []string
+	for _, e := range exits {
+		path = append(path, "return without closeLocked: "+p.InstrPos(e))
+	}
+	c.Check(all, "Close always reaches closeLocked", p.Pos(fn.Pos()), "every path of Close() calls closeLocked()",
+		"Close() can return without entering closeLocked (and without queueing on the session lock): an overlapping Close returns while the first one is still waiting for handlers - the caller tears the connection down under a running handler and its reply is lost", path...)
+	okLock := len(CallsTo(fn, closeLocked)) > 0
+	for _, call := range CallsTo(fn, closeLocked) {
+		if !heldAtMode(p, fn, sessN, lockIdx, call, true) {
+			okLock = false
+		}
+	}
+	c.fact("dominance")
+	c.Check(okLock, "Close holds the session lock", p.Pos(fn.Pos()), "s.lock.Lock() dominates closeLocked()", "Close() enters closeLocked without the session lock: overlapping closes no longer serialise (the second returns before the first finished waiting)")
 }
 
 func runC08_1(c *Ctx) {
